@@ -109,7 +109,7 @@ def ble_write(M, maxfrag, nmax, encrypted):
     """_write_pdu: per-fragment encryption, every write fits the link, accessory reassembles"""
     def h(ex):
         sym = is_sym(ex)
-        link = ex.fresh_int("link", 24 + (16 if encrypted else 0), 512)  # what one GATT write can carry
+        link = ex.fresh_int("link", 8 + (16 if encrypted else 0), 512)  # what one GATT write can carry (plaintext fragment size 8..512)
         body = ex.fresh_bytes("body", 0, nmax, opaque=True)
         n = slen(body)
         tid = ex.fresh_int("tid", 0, 255)
